@@ -70,7 +70,9 @@ Definition set_spec (q : quota) (mx : vec) (mindecl : mask) (mn w : vec) : quota
           (q_used q) (q_npused q) (q_creq q) (q_taint q).
 
 Record pod := mkPod {
-  p_id : Z; p_quota : Z; p_req : vec; p_np : bool; p_assigned : bool }.
+  p_id : Z; p_quota : Z;
+  p_req : vec; p_keys : mask;     (* requests of the pod and which keys they carry (an explicit 0 is a key) *)
+  p_np : bool; p_assigned : bool }.
 
 Record state := mkState { quotas : list quota; pods : list pod; total : vec }.
 Record config := mkConfig { rt_on : bool; chk_parent : bool }.
@@ -136,8 +138,8 @@ Definition eff_weight (q : quota) (d : dim) : Z :=
 
 (* what the parent's calculator holds about child c in dimension d.  The request is the
    calculator's COPY ([q_creq]): the code refreshes it whenever a request delta walks through c
-   (pod add/delete below c, max/min change of a descendant) and when c's own max changes, but not
-   when c's own min changes, although that changes c's Request when c does not lend. *)
+   (pod add/delete below c, max/min change of c or of a descendant).  (Before fix cf84410 it was
+   not refreshed when c's own min changed: findings/C03-stale-request-copy.md.) *)
 Definition node_of (d : dim) (c : quota) : node :=
   mkNode (q_id c) (vget (q_creq c) d) (eff_weight c d)
          (if mget (q_mindecl c) d then vget (q_min c) d else 0) 0 (q_lend c).
@@ -173,10 +175,13 @@ Definition self_ok (q : quota) (lim mreq : vec) : bool :=
 Definition np_ok (q : quota) (mreq : vec) : bool :=
   all_dims (fun d => negb (mget (q_mindecl q) d)
                      || (vget (q_npused q) d + vget mreq d <=? vget (q_min q) d)).
-(* checkQuotaRecursive: only the dimensions the (masked) pod request carries *)
-Definition anc_ok (a : quota) (lim mreq : vec) : bool :=
-  all_dims (fun d => negb (mget (q_decl a) d) || negb (0 <? vget mreq d)
+(* checkQuotaRecursive: only the dimensions the (masked) pod request carries, [rk] *)
+Definition anc_ok (a : quota) (lim : vec) (rk : mask) (mreq : vec) : bool :=
+  all_dims (fun d => negb (mget (q_decl a) d) || negb (mget rk d)
                      || (vget (q_used a) d + vget mreq d <=? vget lim d)).
+(* ResourceNames(Mask(PodRequests(pod), ResourceNames(max))) *)
+Definition req_keys (q : quota) (p : pod) : mask :=
+  mmk (fun d => mget (p_keys p) d && mget (q_decl q) d).
 
 (* 0 = Success, 1 = Unschedulable *)
 Definition admission (cfg : config) (st : state) (p : pod) (pth : list quota) : Z :=
@@ -186,7 +191,8 @@ Definition admission (cfg : config) (st : state) (p : pod) (pth : list quota) : 
     let mreq := vmask (q_decl q) (p_req p) in
     if negb (self_ok q (limit_of cfg st q) mreq) then 1
     else if p_np p && negb (np_ok q mreq) then 1
-    else if chk_parent cfg && negb (forallb (fun a => anc_ok a (limit_of cfg st a) mreq) anc) then 1
+    else if chk_parent cfg
+            && negb (forallb (fun a => anc_ok a (limit_of cfg st a) (req_keys q p) mreq) anc) then 1
     else 0
   end.
 
@@ -200,7 +206,7 @@ Definition refresh (ids : list Z) (qs : list quota) (ps : list pod) : list quota
   map (fun q => if mem_id (q_id q) ids then set_creq q (vmk (limreq (length qs) qs ps q)) else q) qs.
 Definition vec_zerob (v : vec) : bool := all_dims (fun d => vget v d =? 0).
 Definition set_assigned (id : Z) (b : bool) (ps : list pod) : list pod :=
-  map (fun p => if p_id p =? id then mkPod (p_id p) (p_quota p) (p_req p) (p_np p) b else p) ps.
+  map (fun p => if p_id p =? id then mkPod (p_id p) (p_quota p) (p_req p) (p_keys p) (p_np p) b else p) ps.
 Definition remove_pod (id : Z) (ps : list pod) : list pod :=
   filter (fun p => negb (p_id p =? id)) ps.
 
@@ -226,12 +232,14 @@ Definition refund (st : state) (p : pod) : list quota :=
 Inductive op :=
 | OQuotaAdd (id parent : Z) (lend : bool) (decl : mask) (mx : vec) (mindecl : mask) (mn w : vec)
 | OQuotaUpdate (id : Z) (mx : vec) (mindecl : mask) (mn w : vec)
-| OPodAdd (id quota : Z) (np : bool) (req : vec)        (* pending pod seen by the informer *)
+| OPodAdd (id quota : Z) (np : bool) (req : vec) (keys : mask)   (* pending pod seen by the informer *)
 | OAttempt (id : Z)                                     (* PreFilter, then Reserve on success *)
+| OCheck (id : Z)                                       (* PreFilter alone (the cycle may go on to Reserve later) *)
+| OReserve (id : Z)                                     (* Reserve alone *)
 | OUnreserve (id : Z)
 | OPodDelete (id : Z)
 | OCapacity (t : vec)
-| OPodAddBound (id quota : Z) (np : bool) (req : vec)   (* already-bound pod replayed by the informer *)
+| OPodAddBound (id quota : Z) (np : bool) (req : vec) (keys : mask)  (* already-bound pod replayed by the informer *)
 | ONop.
 
 (* what is logged after every operation *)
@@ -282,7 +290,8 @@ Definition step (cfg : config) (st : state) (o : op) : state * obs :=
       let max_changed := any_dim (fun d => mget (q_decl q0) d && negb (vget mx d =? vget (q_max q0) d)) in
       let min_changed := negb (mask_eqb mindecl (q_mindecl q0))
                          || any_dim (fun d => mget mindecl d && negb (vget mn d =? vget (q_min q0) d)) in
-      (* updateOneGroupMaxQuota: copy := min(Request, new max), Request still with the old min *)
+      (* updateOneGroupMaxQuota: copy := min(Request, new max), Request still with the old min;
+         when max or min changed the copy of this quota and of its ancestors is then refreshed *)
       let r_old := req_f (length (quotas st)) (quotas st) (pods st) q0 in
       let c_new := if max_changed
                    then vmk (fun d => if mget (q_decl q0) d then Z.min (r_old d) (vget mx d) else r_old d)
@@ -292,21 +301,21 @@ Definition step (cfg : config) (st : state) (o : op) : state * obs :=
                                               (q_taint q || lowers q mx)
                                else q) (quotas st) in
       let qs2 := if max_changed || min_changed
-                 then refresh (map q_id (path st (q_parent q0))) qs1 (pods st) else qs1 in
+                 then refresh (id :: map q_id (path st (q_parent q0))) qs1 (pods st) else qs1 in
       plain (mkState qs2 (pods st) (total st))
     end
-  | OPodAdd id qn np req =>
+  | OPodAdd id qn np req keys =>
     match find_pod id (pods st), find_quota qn (quotas st) with
     | None, Some _ =>
-      let p := mkPod id qn req np false in
+      let p := mkPod id qn req keys np false in
       let ps := pods st ++ [p] in
       plain (mkState (touch_request st p (quotas st) ps) ps (total st))
     | _, _ => skip
     end
-  | OPodAddBound id qn np req =>
+  | OPodAddBound id qn np req keys =>
     match find_pod id (pods st), find_quota qn (quotas st) with
     | None, Some _ =>
-      let p := mkPod id qn req np false in
+      let p := mkPod id qn req keys np false in
       let ps := pods st ++ [p] in
       let qs := touch_request st p (taint_ids (map q_id (path st qn)) (quotas st)) ps in
       plain (charge (mkState qs ps (total st)) p)
@@ -320,6 +329,18 @@ Definition step (cfg : config) (st : state) (o : op) : state * obs :=
       let v := admission cfg st p pth in
       let st' := if (v =? 0) && negb (p_assigned p) then charge st p else st in
       (st', mkObs v (limits cfg st pth) (dump st'))
+    end
+  | OCheck id =>
+    match find_pod id (pods st) with
+    | None => skip
+    | Some p =>
+      let pth := path st (p_quota p) in
+      (st, mkObs (admission cfg st p pth) (limits cfg st pth) (dump st))
+    end
+  | OReserve id =>
+    match find_pod id (pods st) with
+    | None => skip
+    | Some p => plain (if p_assigned p then st else charge st p)
     end
   | OUnreserve id =>
     match find_pod id (pods st) with
@@ -350,4 +371,25 @@ Fixpoint exec (cfg : config) (st : state) (ops : list op) : state :=
   match ops with
   | [] => st
   | o :: t => exec cfg (fst (step cfg st o)) t
+  end.
+
+(* ---------- ghost: the admission check whose Reserve has not happened yet ---------- *)
+(* (pod id, ids of the quotas the check covered, masked request it was made for) *)
+Definition snap := option (Z * (list Z * vec)).
+Definition track (cfg : config) (st : state) (sn : snap) (o : op) : snap :=
+  match o with
+  | OCheck id =>
+    match find_pod id (pods st) with
+    | Some p =>
+      let pth := path st (p_quota p) in
+      if admission cfg st p pth =? 0 then Some (id, (map q_id pth, pod_delta st p)) else None
+    | None => None
+    end
+  | OAttempt _ | OReserve _ => None
+  | OPodDelete id =>
+    match sn with
+    | Some (i, _) => if i =? id then None else sn
+    | None => None
+    end
+  | _ => sn
   end.
